@@ -124,6 +124,10 @@ class BankMachine(Module):
             cmd_buffer.source.ready.eq(req.wdata_ready | req.rdata_valid),
             req.lock.eq(cmd_buffer_lookahead.source.valid | cmd_buffer.source.valid),
         ]
+        if settings.cmd_buffer_buffered:
+            # A buffered FIFO shows an accepted command on its output one cycle later: keep the lock
+            # meanwhile, otherwise the crossbar can hand the bank to another master in that cycle.
+            self.comb += If(cmd_buffer_lookahead.level != 0, req.lock.eq(1))
 
         slicer = _AddressSlicer(settings.geom.colbits, address_align)
 
